@@ -44,7 +44,7 @@ package scheduler
 //@      forall n *Node :: old(n.data.State.Status) != NodeStatusRunning ==>
 //@         (n.data.State.Status == old(n.data.State.Status) && (n == node ==> n.data.State.Error == old(n.data.State.Error)))
 //@ fn isReady(g, node) (ready)
-//@   props C01 C02
+//@   props C01 C02 C03
 //@   safety
 //@   interference node_rely
 //@   requires graph_wf(g)
@@ -543,7 +543,7 @@ package scheduler
 //@ pred name_absent(g *ExecutionGraph, name string) = forall k int :: has(g.dict, k) ==> g.dict[k].data.Step.Name != name
 
 //@ fn (*ExecutionGraph).findStep(g, name) (n, err)
-//@   props C14 C01
+//@   props C14 C01 C02 C03
 //@   safety
 //@   requires dict_wf(g)
 //@   ensures [C14 found_is_a_node_with_that_name] err == nil ==>
@@ -553,7 +553,7 @@ package scheduler
 //@   loop 0 invariant forall k int :: visited(0, k) ==> (has(g.dict, k) && g.dict[k].data.Step.Name != name)
 
 //@ fn (*ExecutionGraph).addEdge(g, from, to)
-//@   props C14 C01
+//@   props C14 C01 C02 C03
 //@   safety
 //@   requires g.from != nil && g.to != nil && g.from != g.to
 //@   modifies contents(g.from), contents(g.to), heap(alloc)
@@ -583,7 +583,7 @@ package scheduler
 //@      !name_absent(g, g.nodes[i].data.Step.Depends[j])
 
 //@ fn (*ExecutionGraph).setup(g) (err)
-//@   props C14 C01
+//@   props C14 C01 C02 C03
 //@   safety
 //@   requires dict_wf(g) && ids_wf(g) && nodes_wf(g) && g.from != nil && g.to != nil && g.from != g.to
 //@   requires forall k int, j int :: 0 <= j && j < len(g.to[k]) ==> has(g.dict, g.to[k][j])
@@ -596,7 +596,7 @@ package scheduler
 //@   ensures [C14 dangling_dependency_is_refused] !old(deps_resolve(g)) ==> err != nil
 //@   ensures [C14 accepted_only_if_acyclic] err == nil ==> (obs.cycle_calls == old(obs.cycle_calls) + 1 && !obs.cycle)
 //@   ensures [C14 resolvable_acyclic_is_accepted] old(deps_resolve(g)) ==> (obs.cycle_calls == old(obs.cycle_calls) + 1 && (err != nil <==> obs.cycle))
-//@   ensures [C01 every_dependency_is_an_edge] err == nil ==>
+//@   ensures [C01,C02,C03 every_dependency_is_an_edge] err == nil ==>
 //@        (forall i int, j int :: 0 <= i && i < len(g.nodes) && 0 <= j && j < len(g.nodes[i].data.Step.Depends) ==> edge_present(g, i, j))
 //@   ensures [C01 edges_point_to_nodes] forall k int, j int :: 0 <= j && j < len(g.to[k]) ==> has(g.dict, g.to[k][j])
 //@   ensures [C10 forward_edges_point_to_nodes] forall k int, j int :: 0 <= j && j < len(g.from[k]) ==> has(g.dict, g.from[k][j])
@@ -628,7 +628,7 @@ package scheduler
 //@ pred steps_absent(steps []dag.Step, name string) = forall k int :: 0 <= k && k < len(steps) ==> steps[k].Name != name
 
 //@ fn NewExecutionGraph(lg, steps) (g, err)
-//@   props C14 C01
+//@   props C14 C01 C02 C03
 //@   requires nextNodeID > 0
 //@   modifies heap(alloc), nextNodeID, ghost obs.cycle, ghost obs.cycle_calls
 //@   ensures [C14 refused_graph_is_nil] err != nil ==> g == nil
